@@ -188,6 +188,10 @@ def run(run: Run) -> None:
         ra = in_child(lambda: _workload(text, spec.extra_constraints, settings, seed, n_sol, gens, pa))
         rb = in_child(lambda: _workload(text, spec.extra_constraints, settings, seed, n_sol, gens, pb))
     run.steps = 2
+    if any(r_[0] != "ok" and ("child-timeout" in str(r_[1]) or "child died" in str(r_[1]) or "no result from fresh" in str(r_[1])) for r_ in (ra, rb)):
+        from simfw.run import StepCap
+
+        raise StepCap("child-timeout")
     if ra[0] != "ok" or rb[0] != "ok":
         run.event("child", ra[0], rb[0])
         if (ra[0] == "ok") != (rb[0] == "ok"):
